@@ -87,6 +87,16 @@ def mk_source(it):
     return cm.new_cell(it, cm.tvm_bits(it, seg), kids), kids
 
 
+def self_attrs(c):
+    """attribute names assigned on self anywhere in the class"""
+    out = set()
+    for m in c.methods.values():
+        for n in ast.walk(m):
+            if isinstance(n, ast.Attribute) and isinstance(n.ctx, ast.Store) and isinstance(n.value, ast.Name) and n.value.id == 'self':
+                out.add(n.attr)
+    return out
+
+
 def check(run):
     prog = Program()
     wc = prog.where(prog.method('Cell', 'begin_parse'))
@@ -316,7 +326,48 @@ def check(run):
                         (tgt.value.id in (c.name, 'cls') or (tgt.value.id == 'self' and f.cls is not None and prog.is_subclass(f.cls, c.name) and
                                                              not assigns_self_attr(prog, f.cls, tgt.attr))):
                     run.fail('D3', f'{f.qual}:{c.name}.{tgt.attr}', f'mutates the class-level container {c.name}.{tgt.attr}', prog.where(n, f.module))
-    run.ok('D3', 'package-wide effect scan', f'{nfun} functions scanned for mutable defaults / global / class state')
+    # memoising decorators keep results between calls.  That is invisible only if the cache key determines everything the function reads:
+    # a parameter whose class compares (__eq__/__hash__) fewer attributes than the function reads from it makes a later call return the
+    # result of an earlier, different argument; a returned mutable object is shared between all callers.
+    for f in prog.all_functions():
+        decs = []
+        for d in getattr(f.node, 'decorator_list', []):
+            d0 = d.func if isinstance(d, ast.Call) else d
+            nm = d0.id if isinstance(d0, ast.Name) else d0.attr if isinstance(d0, ast.Attribute) else None
+            if nm in ('lru_cache', 'cache', 'cached_property', 'memoize', 'memoized'):
+                decs.append(nm)
+        if not decs or decs == ['cached_property']:
+            continue
+        problems = []
+        for p in f.node.args.posonlyargs + f.node.args.args + f.node.args.kwonlyargs:
+            reads = {n.attr for n in ast.walk(f.node) if isinstance(n, ast.Attribute) and isinstance(n.value, ast.Name) and n.value.id == p.arg}
+            ann = p.annotation
+            cname = ann.id if isinstance(ann, ast.Name) else ann.value if isinstance(ann, ast.Constant) and isinstance(ann.value, str) else None
+            cls = prog.classes.get(cname) if cname else None
+            if cls is None and reads and p.arg not in ('self', 'cls'):
+                # unannotated: the package classes that have every attribute read
+                cands = [c for c in prog.classes.values() if reads <= (set(c.methods) | self_attrs(c))]
+                cls = cands[0] if len(cands) == 1 else None
+            if cls is None:
+                continue
+            c_eq, m_eq = prog.find_method(cls, '__eq__')
+            c_h, m_h = prog.find_method(cls, '__hash__')
+            if m_eq is None and m_h is None:
+                if reads:
+                    problems.append(f'`{p.arg}`: {cls.name} objects are cached by identity while the function reads their attributes {sorted(reads)} - a later mutation of the same object returns the stale result')
+                continue
+            keyed = set()
+            for m in (m_eq, m_h):
+                if m is not None:
+                    keyed |= {n.attr for n in ast.walk(m) if isinstance(n, ast.Attribute) and isinstance(n.value, ast.Name) and n.value.id in ('self', m.args.args[0].arg)}
+            missing = sorted(a for a in reads - keyed if a not in cls.methods or 'property' in FuncRef(cls.methods[a], cls.module, cls).decorators())
+            if missing:
+                problems.append(f'`{p.arg}`: {cls.name}.__eq__/__hash__ look at {sorted(keyed)} only, the function also reads {missing} - two arguments that differ there share one cache entry')
+        if problems:
+            run.fail('D3', f'{f.qual}@{decs[0]}', f'memoised with @{decs[0]}: ' + '; '.join(problems), prog.where(f))
+        else:
+            run.ok('D3', f'{f.qual}@{decs[0]}', 'cache key determines every attribute the function reads')
+    run.ok('D3', 'package-wide effect scan', f'{nfun} functions scanned for mutable defaults / global / class state / memoising decorators')
     run.count('functions_scanned', nfun)
 
     # ---- D4 serialisers must not mutate caller-held containers
